@@ -1614,15 +1614,13 @@ let realloc0 c =
 (** val realloc : cls -> bool m **)
 
 let realloc c s =
-  if has c s.live
-  then if fails s
-       then Val (false, { fail_at = s.fail_at; ctr = (S s.ctr); live =
-              s.live; rlog = ((EvR (c, false)) :: s.rlog); corrupt =
-              s.corrupt })
-       else Val (true, { fail_at = s.fail_at; ctr = (S s.ctr); live = s.live;
-              rlog = ((EvR (c, true)) :: s.rlog); corrupt = s.corrupt })
-  else Val (false, { fail_at = s.fail_at; ctr = (S s.ctr); live = s.live;
-         rlog = ((EvX c) :: s.rlog); corrupt = true })
+  let bad = negb (has c s.live) in
+  let l = if bad then (EvX c) :: s.rlog else s.rlog in
+  if fails s
+  then Val (false, { fail_at = s.fail_at; ctr = (S s.ctr); live = s.live;
+         rlog = ((EvR (c, false)) :: l); corrupt = ((||) s.corrupt bad) })
+  else Val (true, { fail_at = s.fail_at; ctr = (S s.ctr); live = s.live;
+         rlog = ((EvR (c, true)) :: l); corrupt = ((||) s.corrupt bad) })
 
 (** val free : via -> cls -> unit m **)
 
@@ -2394,156 +2392,165 @@ module SyncA =
   let free_shadow_spki bit0 v kt =
     bind (SpkiA.release_m bit0 v kt) (fun _ -> free ViaCfg ShSpki)
 
+  type prep =
+  | Early of sync_out
+  | Go of ((nat * nat) * nat) * table option
+
+  (** val sync_prepare_m :
+      nat -> n -> bool -> OpsA.tabs -> upd list -> prep m **)
+
+  let sync_prepare_m incr me_p reset main pdus =
+    let failed = { so_ok = false; so_main = main; so_pcb = []; so_kcb = [] }
+    in
+    bind (store_m incr pdus O O O) (fun z0 ->
+      let (stored, n0) = z0 in
+      if negb stored
+      then bind (free_arrays n0) (fun _ -> ret (Early failed))
+      else if reset
+           then bind (malloc ShPfx) (fun a ->
+                  if negb a
+                  then bind (free_arrays n0) (fun _ -> ret (Early failed))
+                  else bind
+                         (PfxA.tcopy_except_m main.OpsA.tp empty_table me_p)
+                         (fun zc ->
+                         let (tsh, err) = zc in
+                         if err
+                         then bind (free_shadow_pfx tsh) (fun _ ->
+                                bind (free_arrays n0) (fun _ ->
+                                  ret (Early failed)))
+                         else bind (malloc ShSpki) (fun b ->
+                                if negb b
+                                then bind (free_shadow_pfx tsh) (fun _ ->
+                                       bind (free_arrays n0) (fun _ ->
+                                         ret (Early failed)))
+                                else ret (Go (n0, (Some tsh))))))
+           else ret (Go (n0, None)))
+
+  (** val sync_rest_m :
+      (z -> z) -> z -> n -> z -> variant -> OpsA.tabs -> upd list ->
+      ((nat * nat) * nat) -> table option -> sync_out m **)
+
+  let sync_rest_m hash bit0 me_p me_k v main pdus n0 shp =
+    let reset = match shp with
+                | Some _ -> true
+                | None -> false in
+    let u4 = pfx_updates pdus false in
+    let u6 = pfx_updates pdus true in
+    let uk = key_updates pdus in
+    let drop_shadows = fun shp0 shk ->
+      bind (match shp0 with
+            | Some t -> free_shadow_pfx t
+            | None -> ret ()) (fun _ ->
+        match shk with
+        | Some kt -> free_shadow_spki bit0 v kt
+        | None -> ret ())
+    in
+    bind
+      (match shp with
+       | Some _ ->
+         bind (SpkiA.init_m v) (fun c ->
+           if negb c
+           then bind (free ViaCfg ShSpki) (fun _ -> ret (None, false))
+           else bind
+                  (SpkiA.copy_walk_m hash v main.OpsA.tk.lst me_k
+                    (spki_init bit0)) (fun zk ->
+                  let (okc, ssh) = zk in ret ((Some ssh), okc)))
+       | None -> ret (None, true)) (fun zs ->
+      let (shk, ready) = zs in
+      if negb ready
+      then bind (drop_shadows shp shk) (fun _ ->
+             bind (free_arrays n0) (fun _ ->
+               ret { so_ok = false; so_main = main; so_pcb = []; so_kcb = [] }))
+      else let t0 = match shp with
+                    | Some t -> t
+                    | None -> main.OpsA.tp in
+           let s0 = match shk with
+                    | Some kt -> kt
+                    | None -> main.OpsA.tk in
+           let finish = fun ok t kt pcb kcb purge ->
+             let main1 = if reset then main else { OpsA.tp = t; OpsA.tk = kt }
+             in
+             bind
+               (if purge
+                then purge_m hash bit0 me_p me_k v main1 pcb kcb
+                else ret ((main1, pcb), kcb)) (fun zp ->
+               let (p, kcb2) = zp in
+               let (main2, pcb2) = p in
+               bind
+                 (if reset then drop_shadows (Some t) (Some kt) else ret ())
+                 (fun _ ->
+                 bind (free_arrays n0) (fun _ ->
+                   ret { so_ok = ok; so_main = main2; so_pcb = pcb2; so_kcb =
+                     kcb2 })))
+           in
+           bind (apply_pfx_m v reset u4 t0 [] []) (fun z4 ->
+             let (p, ok4) = z4 in
+             let (p0, c4) = p in
+             let (t1, d4) = p0 in
+             if negb ok4
+             then bind (undo_pfx_m v reset d4 t1 c4) (fun y ->
+                    let (p1, fine) = y in
+                    let (t2, c) = p1 in finish false t2 s0 c [] (negb fine))
+             else bind (apply_pfx_m v reset u6 t1 [] c4) (fun z6 ->
+                    let (p1, ok6) = z6 in
+                    let (p2, c6) = p1 in
+                    let (t3, d6) = p2 in
+                    if negb ok6
+                    then bind (undo_pfx_m v reset (app d6 d4) t3 c6)
+                           (fun y ->
+                           let (p3, fine) = y in
+                           let (t5, c) = p3 in
+                           finish false t5 s0 c [] (negb fine))
+                    else bind (apply_key_m hash bit0 v reset uk s0 [] [])
+                           (fun zk ->
+                           let (p3, okk) = zk in
+                           let (p4, ck) = p3 in
+                           let (s1, dk) = p4 in
+                           if negb okk
+                           then bind (undo_key_m hash bit0 v reset dk s1 ck)
+                                  (fun yk ->
+                                  let (p5, finek) = yk in
+                                  let (s2, ck2) = p5 in
+                                  if negb finek
+                                  then finish false t3 s2 c6 ck2 true
+                                  else bind
+                                         (undo_pfx_m v reset (app d6 d4) t3
+                                           c6) (fun y ->
+                                         let (p6, fine) = y in
+                                         let (t5, c) = p6 in
+                                         finish false t5 s2 c ck2 (negb fine)))
+                           else if reset
+                                then bind
+                                       (PfxA.tnotify_diff_m v t3 main.OpsA.tp
+                                         me_p) (fun zd ->
+                                       let (pcb, oldT) = zd in
+                                       bind
+                                         (SpkiA.diff_walk_m hash bit0 s1.lst
+                                           me_k main.OpsA.tk) (fun oldS ->
+                                         let kcb =
+                                           snd
+                                             (notify_diff hash bit0 s1
+                                               main.OpsA.tk me_k)
+                                         in
+                                         bind
+                                           (drop_shadows (Some oldT) (Some
+                                             oldS)) (fun _ ->
+                                           bind (free_arrays n0) (fun _ ->
+                                             ret { so_ok = true; so_main =
+                                               { OpsA.tp = t3; OpsA.tk =
+                                               s1 }; so_pcb = pcb; so_kcb =
+                                               kcb }))))
+                                else finish true t3 s1 c6 ck false))))
+
   (** val sync_m :
       (z -> z) -> z -> nat -> n -> z -> variant -> bool -> OpsA.tabs -> upd
       list -> sync_out m **)
 
   let sync_m hash bit0 incr me_p me_k v reset main pdus =
-    bind (store_m incr pdus O O O) (fun z0 ->
-      let (stored, n0) = z0 in
-      if negb stored
-      then bind (free_arrays n0) (fun _ ->
-             ret { so_ok = false; so_main = main; so_pcb = []; so_kcb = [] })
-      else let u4 = pfx_updates pdus false in
-           let u6 = pfx_updates pdus true in
-           let uk = key_updates pdus in
-           bind
-             (if reset
-              then bind (malloc ShPfx) (fun a ->
-                     if negb a
-                     then ret ((None, None), false)
-                     else bind
-                            (PfxA.tcopy_except_m main.OpsA.tp empty_table
-                              me_p) (fun zc ->
-                            let (tsh, err) = zc in
-                            if err
-                            then ret (((Some tsh), None), false)
-                            else bind (malloc ShSpki) (fun b ->
-                                   if negb b
-                                   then ret (((Some tsh), None), false)
-                                   else bind (SpkiA.init_m v) (fun c ->
-                                          if negb c
-                                          then bind (free ViaCfg ShSpki)
-                                                 (fun _ ->
-                                                 ret (((Some tsh), None),
-                                                   false))
-                                          else bind
-                                                 (SpkiA.copy_walk_m hash v
-                                                   main.OpsA.tk.lst me_k
-                                                   (spki_init bit0))
-                                                 (fun zk ->
-                                                 let (okc, ssh) = zk in
-                                                 ret (((Some tsh), (Some
-                                                   ssh)), okc))))))
-              else ret ((None, None), true)) (fun zs ->
-             let (p, ready) = zs in
-             let (shp, shk) = p in
-             let drop_shadows = fun shp0 shk0 ->
-               bind
-                 (match shp0 with
-                  | Some t -> free_shadow_pfx t
-                  | None -> ret ()) (fun _ ->
-                 match shk0 with
-                 | Some kt -> free_shadow_spki bit0 v kt
-                 | None -> ret ())
-             in
-             if negb ready
-             then bind (drop_shadows shp shk) (fun _ ->
-                    bind (free_arrays n0) (fun _ ->
-                      ret { so_ok = false; so_main = main; so_pcb = [];
-                        so_kcb = [] }))
-             else let t0 = match shp with
-                           | Some t -> t
-                           | None -> main.OpsA.tp
-                  in
-                  let s0 = match shk with
-                           | Some kt -> kt
-                           | None -> main.OpsA.tk
-                  in
-                  let finish = fun ok t kt pcb kcb purge ->
-                    let main1 =
-                      if reset then main else { OpsA.tp = t; OpsA.tk = kt }
-                    in
-                    bind
-                      (if purge
-                       then purge_m hash bit0 me_p me_k v main1 pcb kcb
-                       else ret ((main1, pcb), kcb)) (fun zp ->
-                      let (p0, kcb2) = zp in
-                      let (main2, pcb2) = p0 in
-                      bind
-                        (if reset
-                         then drop_shadows (Some t) (Some kt)
-                         else ret ()) (fun _ ->
-                        bind (free_arrays n0) (fun _ ->
-                          ret { so_ok = ok; so_main = main2; so_pcb = pcb2;
-                            so_kcb = kcb2 })))
-                  in
-                  bind (apply_pfx_m v reset u4 t0 [] []) (fun z4 ->
-                    let (p0, ok4) = z4 in
-                    let (p1, c4) = p0 in
-                    let (t1, d4) = p1 in
-                    if negb ok4
-                    then bind (undo_pfx_m v reset d4 t1 c4) (fun y ->
-                           let (p2, fine) = y in
-                           let (t2, c) = p2 in
-                           finish false t2 s0 c [] (negb fine))
-                    else bind (apply_pfx_m v reset u6 t1 [] c4) (fun z6 ->
-                           let (p2, ok6) = z6 in
-                           let (p3, c6) = p2 in
-                           let (t3, d6) = p3 in
-                           if negb ok6
-                           then bind (undo_pfx_m v reset (app d6 d4) t3 c6)
-                                  (fun y ->
-                                  let (p4, fine) = y in
-                                  let (t5, c) = p4 in
-                                  finish false t5 s0 c [] (negb fine))
-                           else bind
-                                  (apply_key_m hash bit0 v reset uk s0 [] [])
-                                  (fun zk ->
-                                  let (p4, okk) = zk in
-                                  let (p5, ck) = p4 in
-                                  let (s1, dk) = p5 in
-                                  if negb okk
-                                  then bind
-                                         (undo_key_m hash bit0 v reset dk s1
-                                           ck) (fun yk ->
-                                         let (p6, finek) = yk in
-                                         let (s2, ck2) = p6 in
-                                         if negb finek
-                                         then finish false t3 s2 c6 ck2 true
-                                         else bind
-                                                (undo_pfx_m v reset
-                                                  (app d6 d4) t3 c6)
-                                                (fun y ->
-                                                let (p7, fine) = y in
-                                                let (t5, c) = p7 in
-                                                finish false t5 s2 c ck2
-                                                  (negb fine)))
-                                  else if reset
-                                       then bind
-                                              (PfxA.tnotify_diff_m v t3
-                                                main.OpsA.tp me_p) (fun zd ->
-                                              let (pcb, oldT) = zd in
-                                              bind
-                                                (SpkiA.diff_walk_m hash bit0
-                                                  s1.lst me_k main.OpsA.tk)
-                                                (fun oldS ->
-                                                let kcb =
-                                                  snd
-                                                    (notify_diff hash bit0 s1
-                                                      main.OpsA.tk me_k)
-                                                in
-                                                bind
-                                                  (drop_shadows (Some oldT)
-                                                    (Some oldS)) (fun _ ->
-                                                  bind (free_arrays n0)
-                                                    (fun _ ->
-                                                    ret { so_ok = true;
-                                                      so_main = { OpsA.tp =
-                                                      t3; OpsA.tk = s1 };
-                                                      so_pcb = pcb; so_kcb =
-                                                      kcb }))))
-                                       else finish true t3 s1 c6 ck false)))))
+    bind (sync_prepare_m incr me_p reset main pdus) (fun p ->
+      match p with
+      | Early o -> ret o
+      | Go (n0, shp) -> sync_rest_m hash bit0 me_p me_k v main pdus n0 shp)
  end
 
 (** val real_hash : z -> z **)
